@@ -260,7 +260,7 @@ def run_task(task):
     if not unis:
         res.update(status="skip", reason="source does not ground over any candidate universe (unsafe fragment?)")
         return res
-    timeout = task.get("timeout", 12 if tier == "quick" else 90)
+    timeout = task.get("timeout", 12 if tier == "quick" else 60)
     res["decided"] = []
     worst = None
     for u, cov in unis:
@@ -364,7 +364,7 @@ def c04_task(task, res, text, stms, dst, dst_stms, r, inp, consts, tier, extra_p
         return res
     V = astutil.program_sigs(dst_stms) | set(inp)
     res["V"] = sorted(V)
-    out = tv.check_pair(dst, dst, inp, V, u, consts=consts, costs=True, one_to_one=True, timeout=task.get("timeout", 12 if tier == "quick" else 90),
+    out = tv.check_pair(dst, dst, inp, V, u, consts=consts, costs=True, one_to_one=True, timeout=task.get("timeout", 12 if tier == "quick" else 60),
                         dst_asts=r["asts"], open_preds=inp)
     out["coverage(src_hit,src_rules,dst_hit,dst_rules)"] = cov
     res["decided"] = [out]
